@@ -30,6 +30,10 @@ import (
 //  CONFINE     nothing is ever created outside <root>/<temp|final dir>/<file>
 //  STALLED     after timeout+gc ticks without chunks no stream is tracked and
 //              no temp dir is left
+//  LIVE        only a stalled stream is collected: a tick never removes a stream
+//              that recorded a chunk less than timeout ticks ago; a single in-order
+//              stream whose gaps all stay below the timeout (steady=1 cases) has
+//              every chunk accepted and is finalised
 type monitor struct {
 	c          *rcase
 	st         *vh.Stats
@@ -37,10 +41,12 @@ type monitor struct {
 	verdict    bool
 	reported   map[string]bool
 	corruptExt map[string]bool // stream key -> an external-file chunk with corrupt data was offered
+	lastTouch  map[string]uint64 // snapshot key -> receiver tick when a chunk of its stream was last recorded
+	now        uint64            // the receiver's clock after the current operation
 }
 
 func newMonitor(c *rcase, st *vh.Stats) *monitor {
-	m := &monitor{c: c, st: st, reported: map[string]bool{}, corruptExt: map[string]bool{}}
+	m := &monitor{c: c, st: st, reported: map[string]bool{}, corruptExt: map[string]bool{}, lastTouch: map[string]uint64{}}
 	return m
 }
 
@@ -131,6 +137,16 @@ func (m *monitor) step(i int, o op, chunk pb.Chunk, res string, before, after fs
 		if len(at) < len(bt) || len(trAfter) < len(trBefore) {
 			m.disturbed = true
 		}
+		if o.kind == opTick || o.kind == opDrain {
+			for k := range trBefore {
+				if _, ok := trAfter[k]; !ok {
+					if last, seen := m.lastTouch[k]; seen && m.now-last < m.c.to {
+						m.violation("LIVE", i, fmt.Sprintf("STREAM-COLLECTED-WHILE-LIVE stream %s was collected at tick %d although its last chunk was recorded at tick %d (timeout %d)",
+							k, m.now, last, m.c.to))
+					}
+				}
+			}
+		}
 		if o.kind == opDrain {
 			if len(trAfter) != 0 || len(at) != 0 {
 				m.violation("STALLED", i, fmt.Sprintf("after timeout+gc ticks %d stream(s) tracked, %d temp dir(s) left", len(trAfter), len(at)))
@@ -152,6 +168,16 @@ func (m *monitor) step(i int, o op, chunk pb.Chunk, res string, before, after fs
 	good := chunk.DeploymentId == m.c.did && chunk.BinVer == raftio.TransportBinVersion
 	tb, tracked := trBefore[key]
 	expected := good && chunk.ChunkId != 0 && tracked && tb.Next == chunk.ChunkId && tb.From == chunk.From
+	if good && (chunk.ChunkId == 0 || expected) {
+		m.lastTouch[key] = m.now // record() refreshes the stream's idle clock on every recorded chunk
+	}
+	if m.c.steady && res != "ok" {
+		m.violation("STREAM-NOT-FINALISED", i, fmt.Sprintf("chunk id=%d of a single in-order stream whose gaps stay below the timeout was refused (tracked=%v next=%d)",
+			chunk.ChunkId, tracked, tb.Next))
+	}
+	if m.c.steady && res == "ok" && chunk.IsLastChunk() && len(newFinals) != 1 {
+		m.violation("STREAM-NOT-FINALISED", i, "the last chunk of a steady in-order stream did not finalise the snapshot")
+	}
 	switch res {
 	case "ok":
 		if !good || removed || !(chunk.ChunkId == 0 || expected) {
